@@ -5,3 +5,4 @@ import PvModel.Props.C23
 #print axioms Pv.C23_minmax
 #print axioms Pv.C23_engine_total
 #print axioms Pv.C23_state_machine
+#print axioms Pv.C23_state_machine_distinctfd
